@@ -8,7 +8,13 @@ import Hgxv.Model.C18
   `walk <start> <choices nats>`                        -> `rej` | `nan` | `bad` (choice of probability 0) | nodes
   `cont <nodes> <keys> <infected> <T> <β> <β_D> <μ> <draws rats>`
         -> `<counts nats> <fractions rats> <draws consumed>`   (`rej` when T = 0 or no keys)
-  `spread <nodes> <keys> <infected> <T> <β> <β_D> <μ>` -> counts of the iterated closed-form spreading -/
+  `spread <nodes> <keys> <infected> <T> <β> <β_D> <μ>` -> counts of the iterated closed-form spreading
+  extension round:
+  `kpow <t>`                      -> `rej` | `nan` | K ** t as ratss
+  `denst <s rats> <t>`            -> `rej` | `nan` | s @ (K ** t) as rats
+  `rwd <s rats> <time>`           -> `rej` (np.isclose(sum(s), 1) fails or not connected) | `nan` | the densities
+  `walku <start> <uniforms rats>` -> `rej` | `nan` | the walk driven by the inverse-cdf sampler
+  `cstates <args of cont>`        -> the infected keys after each of the T-1 sweeps as natss -/
 open Wire C18
 
 structure St where
@@ -44,6 +50,33 @@ def step (s : St) : List String → St × String
         | some ns => showNats ns
         | none => "bad")
     | _, _ => (s, "bad-op")
+  | ["kpow", t] =>
+    match nat? t with
+    | some t => (s, guarded s fun _ => showRatss (kPowMat s.es s.N t))
+    | _ => (s, "bad-op")
+  | ["denst", v, t] =>
+    match rats? v, nat? t with
+    | some v, some t => (s, guarded s fun _ => (if v.length = s.N then showRats (densityAt s.es s.N t v) else "rej"))
+    | _, _ => (s, "bad-op")
+  | ["rwd", v, t] =>
+    match rats? v, nat? t with
+    | some v, some t =>
+      (s, if v.length ≠ s.N then "rej" else
+        match randomWalkDensity s.es s.N v t with
+        | none => "rej"
+        | some L => if !rowsPositive s.es s.N then "nan" else showRatss L)
+    | _, _ => (s, "bad-op")
+  | ["walku", a, us] =>
+    match nat? a, rats? us with
+    | some a, some us => (s, guarded s fun _ => showNats (walkU s.es s.N a us))
+    | _, _ => (s, "bad-op")
+  | ["cstates", nodes, keys, inf, t, b, bd, mu, draws] =>
+    match nats? nodes, nats? keys, nats? inf, nat? t, rat? b, rat? bd, rat? mu, rats? draws with
+    | some nodes, some keys, some inf, some t, some b, some bd, some mu, some draws =>
+      if t = 0 || keys.isEmpty then (s, "rej") else
+      let r : Rates := { beta := b, betaD := bd, mu := mu }
+      (s, showNatss (infectedSets s.es nodes keys r (ofList draws) (memB inf) t))
+    | _, _, _, _, _, _, _, _ => (s, "bad-op")
   | ["cont", nodes, keys, inf, t, b, bd, mu, draws] =>
     match nats? nodes, nats? keys, nats? inf, nat? t, rat? b, rat? bd, rat? mu, rats? draws with
     | some nodes, some keys, some inf, some t, some b, some bd, some mu, some draws =>
